@@ -137,7 +137,7 @@ def c10_m_tx(ctx, v):
     and the four count fields symbolic: returns Ok/Err, never panics (slice index, overflow)."""
     body = ctx.body(r"transaction::<impl at [^>]*>::deserialize_from_net$")
     n = 93 + 2 * 59 + 130 + 8 if ctx.tier == "quick" else 93 + 3 * 59 + 2 * 130 + 16
-    _explore_total(ctx, v, "Transaction::deserialize_from_net", body, lambda ex, b: [S.Ref(S.Cell(b))], n, 5 if ctx.tier == "quick" else 6)
+    _explore_total(ctx, v, "Transaction::deserialize_from_net", body, lambda ex, b: [S.Ref(S.Cell(b))], n, 5 if ctx.tier == "quick" else 10)
 
 
 def c10_m_slip_hop(ctx, v):
